@@ -413,7 +413,7 @@ def native_replay(q, run_dir, wdir, vals, form=None, tag="r"):
     # AddressSanitizer/UBSan make memory-safety and undefined-behaviour counterexamples observable natively
     cmd = (["gcc", "-O1", "-g", "-w", "-fsanitize=address,undefined", "-fno-sanitize-recover=all", "-fno-omit-frame-pointer",
             "-DVERIF_REPLAY", "-I", wdir] + flags + srcs +
-           [os.path.join(VERIF, "harness/common/replay_main.c"), "-o", exe])
+           [os.path.join(VERIF, "harness/common/replay_main.c"), "-o", exe, "-no-pie", "-Wl,--unresolved-symbols=ignore-all"])
     rc, out, _ = run_cmd(cmd, 300)
     if rc != 0:
         return None, "native build failed: " + out[-2000:]
